@@ -13,6 +13,7 @@ mod refs;
 mod rng;
 mod runner;
 mod gen;
+mod scen_body;
 mod scen_head;
 mod scen_send;
 
@@ -102,6 +103,34 @@ fn props() -> Vec<Prop> {
             level: "exploration",
             rule: "generated request and response heads with 0..N+2 fields for limits N in {0,1,4,128}, followed by arbitrary bytes, offered to try_parse_response::<N>, try_parse_partial_response::<N>, try_parse_request::<N> on every prefix (heads <= 300 bytes) or on drawn structural prefixes; non-trivial = >=2 prefixes; distinct = abstract trace (limit, over/within, completeness, result kind)",
             assumptions: &[A_COMMON, "prefixes of a head that exceeds the limit may answer incomplete or too-many-headers (the statement decides only the complete head)"],
+            cells_total: 0,
+            cells_what: "",
+            exhaustive_note: "",
+        },
+        Prop {
+            id: "C07",
+            scenario: "recvbody-chunked",
+            run: scen_body::c07,
+            quick: 100_000,
+            thorough: 5_000_000,
+            subs: &["complete", "truncated-by-peer-close", "complete"],
+            level: "exploration",
+            rule: "generated valid chunked codings (3 of 4 in the small scope: <=3 chunks of sizes 1..3 and 15/16/255/256/4095/4096; else up to 12 chunks / 12000 bytes; upper/lower hex, leading zeros, extensions, 0..2 trailers, payload with CR/LF/0/;) reached through a real head and always followed by a next message, delivered under drawn arrival cut sets (one-shot, trickle, random, structural at every grammar-class change +-2) into drawn output sizes (0..4, 1, random, large, mixed) with boundary stopping on/off/toggled and re-polls; a sub-batch truncates the coding (peer close); non-trivial = >=2 reads; distinct = abstract trace (grammar class at window end, output class, stop, progress kind)",
+            assumptions: &[A_COMMON, "chunk size line (digits + extension) <= 20 bytes: the decoder's sanity limit is treated as a resource limit", "trailer lines contain no bare CR"],
+            cells_total: 13 * 8,
+            cells_what: "(grammar class of the last visible coding byte: size digit, ext, size CR, size LF, data, data CR, data LF, last-chunk size, trailer, trailer CR, trailer LF, final CR, final LF) x (output space 0 / 1 / 2..4 / larger) x (boundary stop on/off)",
+            exhaustive_note: "",
+        },
+        Prop {
+            id: "C08",
+            scenario: "recvbody-plain",
+            run: scen_body::c08,
+            quick: 100_000,
+            thorough: 4_000_000,
+            subs: &["content-length", "close-delimited"],
+            level: "exploration",
+            rule: "Content-Length N in {1..3, <=300, 10239..10249, <=70000, 2^32+5, u64::MAX} and close-delimited bodies of 0..70000 bytes reached through a real head, next-message bytes behind the body, drawn arrival schedules and output sizes incl. 0, early peer close in 1 of 8 sized runs; each read is compared with min(window, out, remaining); non-trivial = >=2 reads; distinct = abstract trace",
+            assumptions: &[A_COMMON, "N = 0 never enters the body state (C06 decides that)"],
             cells_total: 0,
             cells_what: "",
             exhaustive_note: "",
